@@ -87,7 +87,7 @@ def select(ctx, all_items):
 
 def run(ctx):
     corpus = items.all_items()
-    chosen = select(ctx, corpus) + list(items.macro_items())
+    chosen = select(ctx, corpus) + list(items.macro_items()) + list(items.usage_items())
     cases = []
     for i, it in enumerate(chosen):
         cases.append((Case("i%d" % i, it.dims, "    #[allow(non_camel_case_types, non_snake_case)]\n    " + it.text("T%d" % i).replace("\n", "\n    "), "", expect=0,
